@@ -114,6 +114,52 @@ for o in (o4, o6):
     for c in o.conns:
         if b'-%d' % DENYPORT in c['rx']:
             chk.violation('routing.real', 'denied-payload-forwarded', f'origin received {c["rx"][:60]!r}', {})
+# ---- one destination, several spellings: an IPv4 destination written as an IPv4-mapped IPv6 address is connected to
+#      over IPv4 (there is no other way to reach it) - the filter has to see what is connected to. Rules: deny
+#      127.0.0.0/8, everything else direct; the origin listens on 127.0.0.1 only
+def mapped_forms():
+    org = Origin('echo')
+    q = {k: free_port() for k in ('http', 'socks', 'api')}
+    cfgm = {'listeners': [{'name': 'http', 'bind': f"127.0.0.1:{q['http']}"}, {'name': 'socks', 'bind': f"127.0.0.1:{q['socks']}"}],
+            'connectors': [{'name': 'direct'}],
+            'rules': [{'filter': 'cidr_match(request.target.host, "127.0.0.0/8")', 'target': 'deny'}, {'target': 'direct'}],
+            'metrics': {'bind': f"127.0.0.1:{q['api']}", 'ui': None}}
+    pm = Proxy(cfgm, 'c02m')
+    pm.api_port = q['api']
+    if not pm.start([q['http'], q['socks'], q['api']]):
+        machinery('mapped forms: proxy did not start: ' + pm.log()[-300:])
+    out = []
+    try:
+        for form in ('127.0.0.1', '::ffff:127.0.0.1', '::ffff:7f00:1', '0:0:0:0:0:ffff:127.0.0.1'):
+            for client in ('http', 'socks5'):
+                before = len(org.conns)
+                try:
+                    if client == 'http':
+                        t = f'[{form}]:{org.port}' if ':' in form else f'{form}:{org.port}'
+                        s_, code, head, rest = http_connect(q['http'], t, timeout=4)
+                        ok = code == 200
+                    else:
+                        s_, r = socks5_connect(q['socks'], form, org.port, timeout=4)
+                        ok = r['rep'] == 0
+                    if ok:
+                        s_.sendall(b'payload-for-a-denied-destination')
+                        time.sleep(0.2)
+                    s_.close()
+                except OSError:
+                    ok = False
+                time.sleep(0.1)
+                out.append((form, client, ok, len(org.conns) - before))
+    finally:
+        pm.stop(); org.stop()
+    return out
+for form, client, ok, reached in mapped_forms():
+    evals += 1
+    distinct.add(('mapped-form', form, client, ok, reached))
+    if ok or reached:
+        chk.violation('routing.real', f'denied-destination-reached-under-another-spelling:{"ipv4-mapped-ipv6" if ":" in form else "plain"}', f'rules deny 127.0.0.0/8: {client} request for {form} was {"served" if ok else "refused"} and {reached} connection(s) reached the origin on 127.0.0.1 (the filter saw an IPv6 host, the connection is IPv4)', {'form': form, 'client': client})
+    if len(samples) < 6:
+        samples.append({'destination_form': form, 'client': client, 'served': ok, 'origin_connections': reached})
+
 # ---- an upstream that cannot carry the requested feature: UDP requests routed to a SOCKS4 upstream (SOCKS4 has no UDP
 #      ASSOCIATE) or to a load balancer (TCP only) are refused, and no connection to the upstream is opened
 def no_udp_case(kind):
@@ -175,6 +221,6 @@ px.stop(); o4.stop(); o6.stop()
 if evals < 30 or len(distinct) < 10:
     machinery(f'vacuous: evals={evals} distinct={len(distinct)}')
 cov = {'evaluations': evals, 'distinct_nontrivial': len(distinct), 'transitions': evals, 'traces_validated_against_impl': evals,
-       'rule': 'real binary with dual-stack listeners: client source {127.0.0.1, 127.0.0.2, ::1} x client protocol {http, socks5, socks4, reverse} x target {IPv4, domain, IPv6, a denied port}; 8 rules over request.source.host/type, request.listener, request.target.host/type/port; the recorded connector must equal the first-match reference evaluated on the true attributes, the recorded source must be the real client address, denied requests are refused and reach no origin',
+       'rule': 'real binary with dual-stack listeners: client source {127.0.0.1, 127.0.0.2, ::1} x client protocol {http, socks5, socks4, reverse} x target {IPv4, domain, IPv6, a denied port}; 8 rules over request.source.host/type, request.listener, request.target.host/type/port; the recorded connector must equal the first-match reference evaluated on the true attributes, the recorded source must be the real client address, denied requests are refused and reach no origin; an IPv4 destination written as IPv4-mapped IPv6 (3 spellings x http / socks5) is still inside a denied IPv4 range',
        'feature_cases': 'UDP requests (reverse-udp datagram, socks5 associate, http CONNECT udp) routed to a SOCKS4 upstream / a load balancer: refused, upstream never connected', 'schedule_control': 'kernel', 'samples': samples}
 sys.exit(chk.finish('model_checking', cov, ['E4 part: the attribute values filters see are observed through the routing decision and the connection record; TPROXY and QUIC listeners are not driven']))
